@@ -33,6 +33,28 @@ source_for(const std::string &profile, const std::string &prop, int tier)
                         }
                 };
         }
+        if (profile == "ref_chain") {
+                // C06: every other run is devoted to one cell of the table (cipher, key size, direction) x hash x chain order,
+                // chosen by a seeded index, together with one randomly chosen second suite so that lanes are shared
+                std::vector<Suite> cs = all_cipher_suites(), hs = all_hash_suites();
+                s.make = [pc, cs, hs](uint64_t run_seed, uint64_t idx) {
+                        if (!(idx & 1))
+                                return gen_plan(pc, run_seed);
+                        ProfileCfg q = pc;
+                        uint64_t cell = mix64(run_seed, 0xC06) % ((uint64_t) cs.size() * hs.size() * 2);
+                        Suite su = cs[cell % cs.size()];
+                        su.hash = hs[(cell / cs.size()) % hs.size()].hash;
+                        su.order = (cell / cs.size() / hs.size()) ? IMB_ORDER_HASH_CIPHER : IMB_ORDER_CIPHER_HASH;
+                        q.fixed_suites.push_back(su);
+                        q.fixed_suites.push_back(su);
+                        q.fixed_suites.push_back(su);
+                        Suite other = cs[mix64(run_seed, 0xC07) % cs.size()];
+                        other.hash = hs[mix64(run_seed, 0xC08) % hs.size()].hash;
+                        other.order = (run_seed & 1) ? IMB_ORDER_HASH_CIPHER : IMB_ORDER_CIPHER_HASH;
+                        q.fixed_suites.push_back(other);
+                        return gen_plan(q, run_seed);
+                };
+        }
         if (profile == "guard") {
                 // C07: besides ordinary schedules, the segmented entry points (SGL streams, segment lists, init/update/finalize)
                 // with every segment in its own guarded object, and the direct/sync-burst entry points
